@@ -260,6 +260,448 @@ fn dump(file: &str, endian: &str, out_path: &str) {
     out.finish();
 }
 
+
+// ------------------------------------------------------------------------------------------------
+// state machine: C03 / C04
+// ------------------------------------------------------------------------------------------------
+const MAXU: i64 = 536870911; // stands for usize::MAX in the specification (2^29 - 1, congruent to 3 mod 4)
+
+fn to_usize(v: i64) -> usize {
+    if v >= (1 << 28) {
+        usize::MAX - (MAXU - v) as usize
+    } else {
+        v as usize
+    }
+}
+fn from_usize(u: usize) -> i64 {
+    if u > (1usize << 40) {
+        MAXU - (usize::MAX - u) as i64
+    } else {
+        u as i64
+    }
+}
+
+fn res_err() -> Value {
+    json!({"ok": false, "some": false, "v": []})
+}
+fn res_unit() -> Value {
+    json!({"ok": true, "some": false, "v": []})
+}
+fn res_val(v: Value) -> Value {
+    json!({"ok": true, "some": true, "v": v})
+}
+fn unit_of<T, E>(r: Result<T, E>) -> Value {
+    match r {
+        Ok(_) => res_unit(),
+        Err(_) => res_err(),
+    }
+}
+fn opt_of<E>(r: Result<Option<Value>, E>) -> Value {
+    match r {
+        Ok(Some(v)) => res_val(v),
+        Ok(None) => res_unit(),
+        Err(_) => res_err(),
+    }
+}
+fn sj_json(s: &str) -> Value {
+    match string_to_sjis(s) {
+        Some(b) => bytes_to_json(&b),
+        None => json!([-1]),
+    }
+}
+fn digits_be(x: u32, w: usize) -> Value {
+    let b = x.to_be_bytes();
+    bytes_to_json(&b[4 - w..])
+}
+fn digits_val(d: &Value) -> u32 {
+    let b = json_to_bytes(d);
+    b.iter().fold(0u32, |acc, x| (acc << 8) | *x as u32)
+}
+
+/// Apply one event to the archive; returns (res, cursor position reported: 0 for positional calls).
+fn sm_apply(a: &mut BinArchive, ev: &Value) -> (Value, i64) {
+    let op = ev["op"].as_str().unwrap();
+    let addr = to_usize(ev["a"].as_i64().unwrap());
+    let n = to_usize(ev["n"].as_i64().unwrap());
+    let ge = ev["ge"].as_bool().unwrap();
+    let ty = ev["ty"].as_str().unwrap_or("");
+    let bs = &ev["bs"];
+    let t = to_usize(ev["t"].as_i64().unwrap_or(0));
+    let s_of = |v: &Value| sjis_to_string(&json_to_bytes(v));
+    match op {
+        "allocate" => (unit_of(a.allocate(addr, n, ge)), 0),
+        "allocate_at_end" => {
+            a.allocate_at_end(n);
+            (res_unit(), 0)
+        }
+        "deallocate" => (unit_of(a.deallocate(addr, n, ge)), 0),
+        "truncate" => (unit_of(a.truncate(addr)), 0),
+        "read_bytes" => (
+            match a.read_bytes(addr, n) {
+                Ok(b) => res_val(bytes_to_json(b)),
+                Err(_) => res_err(),
+            },
+            0,
+        ),
+        "write_bytes" => (unit_of(a.write_bytes(addr, &json_to_bytes(bs))), 0),
+        "read_val" => {
+            let r = match (n, ty) {
+                (1, "u") => a.read_u8(addr).map(|x| x as u32).ok(),
+                (1, _) => a.read_i8(addr).map(|x| x as u8 as u32).ok(),
+                (2, "u") => a.read_u16(addr).map(|x| x as u32).ok(),
+                (2, _) => a.read_i16(addr).map(|x| x as u16 as u32).ok(),
+                (4, "u") => a.read_u32(addr).ok(),
+                (4, "i") => a.read_i32(addr).map(|x| x as u32).ok(),
+                (4, _) => a.read_f32(addr).map(|x| x.to_bits()).ok(),
+                _ => usage("read_val width"),
+            };
+            (r.map(|x| res_val(digits_be(x, n))).unwrap_or_else(res_err), 0)
+        }
+        "write_val" => {
+            let x = digits_val(bs);
+            let r = match (n, ty) {
+                (1, "u") => a.write_u8(addr, x as u8),
+                (1, _) => a.write_i8(addr, x as u8 as i8),
+                (2, "u") => a.write_u16(addr, x as u16),
+                (2, _) => a.write_i16(addr, x as u16 as i16),
+                (4, "u") => a.write_u32(addr, x),
+                (4, "i") => a.write_i32(addr, x as i32),
+                (4, _) => a.write_f32(addr, f32::from_bits(x)),
+                _ => usage("write_val width"),
+            };
+            (unit_of(r), 0)
+        }
+        "read_string" => (opt_of(a.read_string(addr).map(|o| o.map(|s| sj_json(&s)))), 0),
+        "read_pointer" => (opt_of(a.read_pointer(addr).map(|o| o.map(|p| json!([from_usize(p)])))), 0),
+        "read_labels" => (opt_of(a.read_labels(addr).map(|o| o.map(|l| Value::Array(l.iter().map(|x| sj_json(x)).collect())))), 0),
+        "write_string" => (unit_of(a.write_string(addr, Some(&s_of(bs)))), 0),
+        "delete_string" => (unit_of(a.delete_string(addr)), 0),
+        "write_pointer" => (unit_of(a.write_pointer(addr, Some(t))), 0),
+        "delete_pointer" => (unit_of(a.delete_pointer(addr)), 0),
+        "write_c_string" => (unit_of(a.write_c_string(addr, s_of(bs))), 0),
+        "write_label" => (unit_of(a.write_label(addr, &s_of(bs))), 0),
+        "write_labels" => (unit_of(a.write_labels(addr, bs.as_array().unwrap().iter().map(|x| s_of(x)).collect())), 0),
+        "delete_labels" => (unit_of(a.delete_labels(addr)), 0),
+        // ---- streams: created at the cursor, one call, tell()
+        "s_allocate" => {
+            let mut w = BinArchiveWriter::new(a, addr);
+            let r = unit_of(w.allocate(n, ge));
+            (r, from_usize(w.tell()))
+        }
+        "s_read_val" => {
+            let mut rd = BinArchiveReader::new(a, addr);
+            let r = match (n, ty) {
+                (1, "u") => rd.read_u8().map(|x| x as u32).ok(),
+                (1, _) => rd.read_i8().map(|x| x as u8 as u32).ok(),
+                (2, "u") => rd.read_u16().map(|x| x as u32).ok(),
+                (2, _) => rd.read_i16().map(|x| x as u16 as u32).ok(),
+                (4, "u") => rd.read_u32().ok(),
+                (4, "i") => rd.read_i32().map(|x| x as u32).ok(),
+                (4, _) => rd.read_f32().map(|x| x.to_bits()).ok(),
+                _ => usage("s_read_val width"),
+            };
+            (r.map(|x| res_val(digits_be(x, n))).unwrap_or_else(res_err), from_usize(rd.tell()))
+        }
+        "s_write_val" => {
+            let x = digits_val(bs);
+            let mut w = BinArchiveWriter::new(a, addr);
+            let r = match (n, ty) {
+                (1, "u") => w.write_u8(x as u8),
+                (1, _) => w.write_i8(x as u8 as i8),
+                (2, "u") => w.write_u16(x as u16),
+                (2, _) => w.write_i16(x as u16 as i16),
+                (4, "u") => w.write_u32(x),
+                (4, "i") => w.write_i32(x as i32),
+                (4, _) => w.write_f32(f32::from_bits(x)),
+                _ => usage("s_write_val width"),
+            };
+            (unit_of(r), from_usize(w.tell()))
+        }
+        "s_read_bytes" => {
+            let mut rd = BinArchiveReader::new(a, addr);
+            let r = match rd.read_bytes(n) {
+                Ok(b) => res_val(bytes_to_json(&b)),
+                Err(_) => res_err(),
+            };
+            (r, from_usize(rd.tell()))
+        }
+        "s_write_bytes" => {
+            let mut w = BinArchiveWriter::new(a, addr);
+            let r = unit_of(w.write_bytes(&json_to_bytes(bs)));
+            (r, from_usize(w.tell()))
+        }
+        "s_read_string" => {
+            let mut rd = BinArchiveReader::new(a, addr);
+            let r = opt_of(rd.read_string().map(|o| o.map(|s| sj_json(&s))));
+            (r, from_usize(rd.tell()))
+        }
+        "s_read_pointer" => {
+            let mut rd = BinArchiveReader::new(a, addr);
+            let r = opt_of(rd.read_pointer().map(|o| o.map(|p| json!([from_usize(p)]))));
+            (r, from_usize(rd.tell()))
+        }
+        "s_read_labels" => {
+            let mut rd = BinArchiveReader::new(a, addr);
+            let r = opt_of(rd.read_labels().map(|o| o.map(|l| Value::Array(l.iter().map(|x| sj_json(x)).collect()))));
+            (r, from_usize(rd.tell()))
+        }
+        "s_write_string" => {
+            let mut w = BinArchiveWriter::new(a, addr);
+            let r = unit_of(w.write_string(Some(&s_of(bs))));
+            (r, from_usize(w.tell()))
+        }
+        "s_delete_string" => {
+            let mut w = BinArchiveWriter::new(a, addr);
+            let r = unit_of(w.write_string(None));
+            (r, from_usize(w.tell()))
+        }
+        "s_write_pointer" => {
+            let mut w = BinArchiveWriter::new(a, addr);
+            let r = unit_of(w.write_pointer(Some(t)));
+            (r, from_usize(w.tell()))
+        }
+        "s_delete_pointer" => {
+            let mut w = BinArchiveWriter::new(a, addr);
+            let r = unit_of(w.write_pointer(None));
+            (r, from_usize(w.tell()))
+        }
+        "s_write_c_string" => {
+            let mut w = BinArchiveWriter::new(a, addr);
+            let r = unit_of(w.write_c_string(s_of(bs)));
+            (r, from_usize(w.tell()))
+        }
+        "s_write_label" => {
+            let mut w = BinArchiveWriter::new(a, addr);
+            let r = unit_of(w.write_label(&s_of(bs)));
+            (r, from_usize(w.tell()))
+        }
+        other => usage(&format!("unknown op {}", other)),
+    }
+}
+
+/// full observable state incl. pending c-strings (hook)
+fn sm_project(a: &BinArchive, endian: &str) -> Value {
+    match catch(|| project_full(a, endian)) {
+        Ok(p) => p,
+        Err(p) => json!({"unobservable": format!("panic {}", p)}),
+    }
+}
+
+fn outcome_matches(o: &Value, got: &Value) -> bool {
+    o["res"] == got["res"] && o["st"] == got["st"] && (o["pos"].as_i64() == Some(-1) || o["pos"] == got["pos"])
+}
+
+fn sm_replay(cases_path: &str, out_path: &str) {
+    let cases = read_ndjson(cases_path);
+    let mut out = NdWriter::create(out_path);
+    let (mut n, mut bad, mut unb) = (0u64, 0u64, 0u64);
+    for (i, c) in cases.iter().enumerate() {
+        n += 1;
+        let pre = &c["pre"];
+        let e = pre["endian"].as_str().unwrap();
+        let built = catch(|| -> Result<BinArchive, String> {
+            let a = build(pre)?;
+            let p = sm_project(&a, e);
+            if &p != pre {
+                return Err(format!("cannot establish pre-state: got {}", p));
+            }
+            Ok(a)
+        });
+        let mut a = match built {
+            Ok(Ok(a)) => a,
+            Ok(Err(why)) | Err(why) => {
+                unb += 1;
+                if unb <= 5 {
+                    out.put(&json!({"kind": "unbuildable", "i": i, "why": why, "pre": pre}));
+                }
+                continue;
+            }
+        };
+        let got = match catch(|| {
+            let (res, pos) = sm_apply(&mut a, &c["ev"]);
+            (res, pos)
+        }) {
+            Ok((res, pos)) => json!({"res": res, "pos": pos, "st": sm_project(&a, e)}),
+            Err(p) => json!({"panic": p}),
+        };
+        if !c["allowed"].as_array().unwrap().iter().any(|o| outcome_matches(o, &got)) {
+            bad += 1;
+            out.put(&json!({"kind": "mismatch", "i": i, "case": c, "got": got}));
+        }
+    }
+    out.put(&json!({"kind": "summary", "cases": n, "mismatches": bad, "unbuildable": unb}));
+    out.finish();
+}
+
+// ---- recording random histories (impl -> spec) ------------------------------------------------------
+fn ev(op: &str, a: i64, n: i64, ge: bool, bs: Value, t: i64, ty: &str) -> Value {
+    json!({"op": op, "a": a, "n": n, "ge": ge, "bs": bs, "t": t, "ty": ty})
+}
+
+fn cell_has(p: &Value, key: &str, a: i64) -> bool {
+    p[key].as_array().unwrap().iter().any(|x| x[0].as_i64() == Some(a))
+}
+
+fn random_event(rng: &mut Rng, p: &Value, focus: &str) -> Value {
+    let size = p["data"].as_array().unwrap().len() as i64;
+    let cells = size / 4;
+    let names: [&[u8]; 4] = [b"A", b"BC", b"Lbl", b""];
+    let name = |rng: &mut Rng| bytes_to_json(names[rng.below(4)]);
+    // an address: mostly a valid cell, sometimes misaligned / at the end / beyond / near usize::MAX
+    let addr = |rng: &mut Rng| -> i64 {
+        match rng.below(20) {
+            0 => size,
+            1 => size + 4,
+            2 => rng.below(size as usize + 2) as i64,
+            3 => MAXU - rng.below(9) as i64,
+            _ => 4 * rng.below(cells.max(1) as usize) as i64,
+        }
+    };
+    let len = |rng: &mut Rng| -> i64 {
+        match rng.below(20) {
+            0 => 0,
+            1 => 3,
+            2 => MAXU - rng.below(9) as i64,
+            3 => size + 4,
+            _ => 4 * rng.range(1, 3) as i64,
+        }
+    };
+    let free_cell = |rng: &mut Rng, p: &Value| -> Option<i64> {
+        if cells == 0 {
+            return None;
+        }
+        for _ in 0..8 {
+            let a = 4 * rng.below(cells as usize) as i64;
+            if !cell_has(p, "text", a) && !cell_has(p, "ptrs", a) && !cell_has(p, "cstr", a) {
+                return Some(a);
+            }
+        }
+        None
+    };
+    let stream = rng.chance(1, 2);
+    let pre = |o: &str| if stream { format!("s_{}", o) } else { o.to_string() };
+    if focus == "c03" {
+        match rng.below(100) {
+            0..=19 if size <= 200 => ev("allocate", addr(rng), len(rng).min(64), rng.chance(1, 2), json!([]), 0, ""),
+            20..=24 if size <= 200 => ev("allocate_at_end", 0, [0, 3, 4, 8][rng.below(4)], false, json!([]), 0, ""),
+            25..=32 if size <= 200 => ev("s_allocate", addr(rng), len(rng).min(64), rng.chance(1, 2), json!([]), 0, ""),
+            33..=54 => ev("deallocate", addr(rng), len(rng), rng.chance(1, 2), json!([]), 0, ""),
+            55..=59 => ev("truncate", 4 * rng.below(cells as usize + 2) as i64, 0, false, json!([]), 0, ""),
+            60..=67 => match free_cell(rng, p) {
+                Some(a) => ev(&pre("write_string"), a, 0, false, name(rng), 0, ""),
+                None => ev("read_string", addr(rng), 0, false, json!([]), 0, ""),
+            },
+            68..=75 => match free_cell(rng, p) {
+                Some(a) => ev(&pre("write_pointer"), a, 0, false, json!([]), if rng.chance(1, 4) { size } else { rng.below(size as usize + 1) as i64 }, ""),
+                None => ev("read_pointer", addr(rng), 0, false, json!([]), 0, ""),
+            },
+            76..=80 => match free_cell(rng, p) {
+                Some(a) => ev(&pre("write_c_string"), a, 0, false, name(rng), 0, ""),
+                None => ev("read_labels", addr(rng), 0, false, json!([]), 0, ""),
+            },
+            81..=88 => ev(&pre("write_label"), if rng.chance(1, 3) { rng.below(size as usize + 1) as i64 } else { addr(rng) }, 0, false, name(rng), 0, ""),
+            89..=90 => ev("write_labels", addr(rng), 0, false, json!([name(rng), name(rng)]), 0, ""),
+            91..=93 => ev(&pre("delete_string"), addr(rng), 0, false, json!([]), 0, ""),
+            94..=96 => ev(&pre("delete_pointer"), addr(rng), 0, false, json!([]), 0, ""),
+            97 => ev("delete_labels", addr(rng), 0, false, json!([]), 0, ""),
+            _ => ev("write_val", addr(rng), 4, false, bytes_to_json(&rng.bytes(4)), 0, "u"),
+        }
+    } else {
+        // any byte address
+        let baddr = |rng: &mut Rng| -> i64 {
+            match rng.below(12) {
+                0 => size,
+                1 => size + 1,
+                2 => MAXU - rng.below(6) as i64,
+                3 => (size - rng.below(5) as i64).max(0),
+                _ => rng.below(size.max(1) as usize) as i64,
+            }
+        };
+        let w = [1i64, 2, 4][rng.below(3)];
+        let ty = if w == 4 { ["u", "i", "f"][rng.below(3)] } else { ["u", "i"][rng.below(2)] };
+        match rng.below(100) {
+            0..=17 => ev(&pre("read_val"), baddr(rng), w, false, json!([]), 0, ty),
+            18..=39 => {
+                let mut d = rng.bytes(w as usize);
+                if rng.chance(1, 4) && w == 4 {
+                    d = vec![0x7f, 0xc0 | (rng.next() as u8 & 0x3f), rng.next() as u8, 1]; // NaN payloads
+                }
+                ev(&pre("write_val"), baddr(rng), w, false, bytes_to_json(&d), 0, ty)
+            }
+            40..=51 => ev(&pre("read_bytes"), baddr(rng), match rng.below(8) { 0 => 0, 1 => MAXU - rng.below(3) as i64, 2 => size + 1, _ => rng.below(size as usize + 2) as i64 }, false, json!([]), 0, ""),
+            52..=63 => {
+                let k = match rng.below(6) { 0 => 0, 1 => size as usize + 1, _ => rng.below(size as usize + 1) };
+                ev(&pre("write_bytes"), baddr(rng), 0, false, bytes_to_json(&rng.bytes(k)), 0, "")
+            }
+            64..=69 => ev(&pre("read_string"), addr(rng), 0, false, json!([]), 0, ""),
+            70..=75 => ev(&pre("read_pointer"), addr(rng), 0, false, json!([]), 0, ""),
+            76..=81 => ev(&pre("read_labels"), addr(rng), 0, false, json!([]), 0, ""),
+            82..=85 => match free_cell(rng, p) {
+                Some(a) => ev(&pre("write_string"), a, 0, false, name(rng), 0, ""),
+                None => ev("read_string", addr(rng), 0, false, json!([]), 0, ""),
+            },
+            86..=89 => match free_cell(rng, p) {
+                Some(a) => ev(&pre("write_pointer"), a, 0, false, json!([]), rng.below(size as usize + 1) as i64, ""),
+                None => ev("read_pointer", addr(rng), 0, false, json!([]), 0, ""),
+            },
+            90..=93 => ev(&pre("write_label"), addr(rng), 0, false, name(rng), 0, ""),
+            94..=96 => ev(&pre("delete_string"), addr(rng), 0, false, json!([]), 0, ""),
+            _ => ev(&pre("delete_pointer"), addr(rng), 0, false, json!([]), 0, ""),
+        }
+    }
+}
+
+fn sm_record(out_path: &str, focus: &str, runs: usize, len: usize) {
+    let mut rng = Rng::new(seed_from_env() ^ 0x5EED);
+    let mut out = NdWriter::create(out_path);
+    for run in 0..runs {
+        let maxcells = if focus == "c04" { 1 + run % 6 } else { 1 + run % 16 };
+        let mut content = random_content(&mut rng, maxcells, focus == "c03");
+        if focus == "c03" {
+            // structural operations are about cell-aligned archives
+            let n = content["data"].as_array().unwrap().len() / 4 * 4;
+            content["data"].as_array_mut().unwrap().truncate(n);
+            let lab: Vec<Value> = content["labels"].as_array().unwrap().iter().filter(|l| l[0].as_u64().unwrap() as usize <= n).cloned().collect();
+            content["labels"] = Value::Array(lab);
+            for p in content["ptrs"].as_array_mut().unwrap() {
+                if p[1].as_u64().unwrap() as usize > n {
+                    p[1] = json!(n);
+                }
+            }
+        }
+        let e = content["endian"].as_str().unwrap().to_string();
+        let mut a = match build(&content) {
+            Ok(a) => a,
+            Err(why) => {
+                eprintln!("record: cannot build initial archive: {}", why);
+                std::process::exit(2)
+            }
+        };
+        let reset = |a: &BinArchive| json!({"op": "reset", "a": 0, "n": 0, "ge": false, "bs": [], "t": 0, "ty": "", "res": res_unit(), "pos": 0, "post": sm_project(a, &e)});
+        out.put(&reset(&a));
+        for _ in 0..len {
+            let p = sm_project(&a, &e);
+            let mut evv = random_event(&mut rng, &p, focus);
+            match catch(|| sm_apply(&mut a, &evv)) {
+                Ok((res, pos)) => {
+                    evv["res"] = res;
+                    evv["pos"] = json!(pos);
+                    evv["post"] = sm_project(&a, &e);
+                    out.put(&evv);
+                }
+                Err(pn) => {
+                    evv["res"] = json!({"panic": pn});
+                    evv["pos"] = json!(0);
+                    evv["post"] = sm_project(&a, &e);
+                    out.put(&evv);
+                    out.put(&reset(&a));
+                }
+            }
+        }
+    }
+    out.finish();
+}
+
 fn main() {
     install_panic_hook();
     let args: Vec<String> = std::env::args().skip(1).collect();
@@ -268,7 +710,9 @@ fn main() {
         ["format-replay", cases, out] => format_replay(cases, out),
         ["format-record", out, n, maxcells] => format_record(out, n.parse().unwrap(), maxcells.parse().unwrap()),
         ["dump", file, endian, out] => dump(file, endian, out),
+        ["sm-replay", cases, out] => sm_replay(cases, out),
+        ["sm-record", out, focus, runs, len] => sm_record(out, focus, runs.parse().unwrap(), len.parse().unwrap()),
         _ => usage("mvh_bin format-replay|format-record|dump ..."),
     }
-    let _ = (BinArchiveReader::new, BinArchiveWriter::new, Endian::Little);
+    let _ = Endian::Little;
 }
